@@ -8,6 +8,7 @@ evidence/<id>.json and exits 0 (held on what was observed), 1 (violation), 2 (in
 import os
 import sys
 import json
+import signal
 import time
 import hashlib
 import random
@@ -37,6 +38,14 @@ def case_rng(prop, seed, index, salt=""):
 
 def fp(obj):
     return hashlib.sha1(repr(obj).encode()).hexdigest()[:16]
+
+
+class CaseTimeout(BaseException):
+    pass
+
+
+def _on_alarm(signum, frame):
+    raise CaseTimeout()
 
 
 class Ctx:
@@ -95,10 +104,17 @@ def _shard_main(mod, prop, tier, seed, shard, nshards, out, only_case=None):
             continue
         ctx.case = i
         rng = case_rng(prop, seed, i)
+        signal.signal(signal.SIGALRM, _on_alarm)
+        signal.alarm(plan.get("case_timeout_s", 120))
         try:
             mod.run_case(ctx, i, rng)
+        except CaseTimeout:
+            ctx.note_inconclusive("case %d hit the %ds wall-clock watchdog" % (i, plan.get("case_timeout_s", 120)))
+            ctx.count("cases_timed_out")
         except Exception:
             ctx.violation("harness-exception", traceback.format_exc()[-1800:])
+        finally:
+            signal.alarm(0)
         ctx.count("cases")
         if len(ctx.violations) > 200:
             break
